@@ -12,7 +12,6 @@ use crate::jws::JwsHeader;
 use crate::jwu::create_message;
 use crate::jwu::decode_b64;
 use crate::jwu::decode_b64_json;
-use crate::jwu::filter_non_empty_bytes;
 use crate::jwu::parse_utf8;
 use crate::jwu::validate_jws_headers;
 
@@ -191,16 +190,28 @@ struct JwsSignature<'a> {
 #[derive(serde::Deserialize)]
 #[serde(deny_unknown_fields)]
 struct General<'a> {
-  payload: Option<&'a str>,
+  // An unencoded payload (`b64 = false`) is a JSON string that may contain escapes, which cannot be borrowed from the input.
+  #[serde(borrow)]
+  payload: Option<Cow<'a, str>>,
   signatures: Vec<JwsSignature<'a>>,
 }
 
 #[derive(serde::Deserialize)]
 #[serde(deny_unknown_fields)]
 struct Flatten<'a> {
-  payload: Option<&'a str>,
+  // An unencoded payload (`b64 = false`) is a JSON string that may contain escapes, which cannot be borrowed from the input.
+  #[serde(borrow)]
+  payload: Option<Cow<'a, str>>,
   #[serde(flatten)]
   signature: JwsSignature<'a>,
+}
+
+/// The bytes of a (borrowed or owned) string.
+fn str_into_bytes(value: Cow<'_, str>) -> Cow<'_, [u8]> {
+  match value {
+    Cow::Borrowed(value) => Cow::Borrowed(value.as_bytes()),
+    Cow::Owned(value) => Cow::Owned(value.into_bytes()),
+  }
 }
 
 // =============================================================================
@@ -243,7 +254,7 @@ impl Decoder {
       signature: parse_utf8(signature)?,
     };
 
-    let payload = Self::expand_payload(detached_payload, Some(payload))?;
+    let payload = Self::expand_payload(detached_payload, Some(Cow::Borrowed(payload)))?;
 
     self.decode_signature(payload, signature)
   }
@@ -260,14 +271,14 @@ impl Decoder {
     detached_payload: Option<&'b [u8]>,
   ) -> Result<JwsValidationItem<'b>> {
     let data: Flatten<'_> = serde_json::from_slice(jws_bytes).map_err(Error::InvalidJson)?;
-    let payload = Self::expand_payload(detached_payload, data.payload)?;
+    let payload = Self::expand_payload(detached_payload, data.payload.map(str_into_bytes))?;
     let signature = data.signature;
     self.decode_signature(payload, signature)
   }
 
   fn decode_signature<'a, 'b>(
     &self,
-    payload: &'b [u8],
+    payload: Cow<'b, [u8]>,
     jws_signature: JwsSignature<'a>,
   ) -> Result<JwsValidationItem<'b>> {
     let JwsSignature {
@@ -280,13 +291,13 @@ impl Decoder {
     validate_jws_headers(protected_header.as_ref(), unprotected_header.as_ref())?;
 
     let protected_bytes: &[u8] = protected.map(str::as_bytes).unwrap_or_default();
-    let signing_input: Box<[u8]> = create_message(protected_bytes, payload).into();
+    let signing_input: Box<[u8]> = create_message(protected_bytes, &payload).into();
     let decoded_signature: Box<[u8]> = decode_b64(signature)?.into();
 
     let claims: Cow<'b, [u8]> = if protected_header.as_ref().and_then(|value| value.b64()).unwrap_or(true) {
-      Cow::Owned(decode_b64(payload)?)
+      Cow::Owned(decode_b64(&payload)?)
     } else {
-      Cow::Borrowed(payload)
+      payload
     };
 
     Ok(JwsValidationItem {
@@ -299,10 +310,10 @@ impl Decoder {
 
   fn expand_payload<'b>(
     detached_payload: Option<&'b [u8]>,
-    parsed_payload: Option<&'b (impl AsRef<[u8]> + ?Sized)>,
-  ) -> Result<&'b [u8]> {
-    match (detached_payload, filter_non_empty_bytes(parsed_payload)) {
-      (Some(payload), None) => Ok(payload),
+    parsed_payload: Option<Cow<'b, [u8]>>,
+  ) -> Result<Cow<'b, [u8]>> {
+    match (detached_payload, parsed_payload.filter(|payload| !payload.is_empty())) {
+      (Some(payload), None) => Ok(Cow::Borrowed(payload)),
       (None, Some(payload)) => Ok(payload),
       (Some(_), Some(_)) => Err(Error::InvalidContent("multiple payloads")),
       (None, None) => Err(Error::InvalidContent("missing payload")),
@@ -319,7 +330,7 @@ impl Decoder {
 pub struct JwsValidationIter<'decoder, 'payload, 'signatures> {
   decoder: &'decoder Decoder,
   signatures: std::vec::IntoIter<JwsSignature<'signatures>>,
-  payload: &'payload [u8],
+  payload: Cow<'payload, [u8]>,
 }
 
 impl<'payload> Iterator for JwsValidationIter<'_, 'payload, '_> {
@@ -329,7 +340,7 @@ impl<'payload> Iterator for JwsValidationIter<'_, 'payload, '_> {
     self
       .signatures
       .next()
-      .map(|signature| self.decoder.decode_signature(self.payload, signature))
+      .map(|signature| self.decoder.decode_signature(self.payload.clone(), signature))
   }
 }
 
@@ -347,7 +358,7 @@ impl Decoder {
   ) -> Result<JwsValidationIter<'decoder, 'data, 'data>> {
     let data: General<'data> = serde_json::from_slice(jws_bytes).map_err(Error::InvalidJson)?;
 
-    let payload = Self::expand_payload(detached_payload, data.payload)?;
+    let payload = Self::expand_payload(detached_payload, data.payload.map(str_into_bytes))?;
     let signatures = data.signatures;
 
     Ok(JwsValidationIter {
